@@ -716,13 +716,14 @@ def check_estimators(run, A):
                     (D + 'complex_circular_symmetric_gaussian::ComplexCircularSymmetricGaussianTrainer._fit', ('y', -2)), (D + 'gaussian::GaussianTrainer._fit', ('y', -2))):
         fn = A.prog.func(q)
         g = A.graphs.get(fn)
+        from ..walk import shape_dim
+        # np.array(<an expression of axis lengths>): the observation count, however the axis length is read (y.shape[-2], `*_, n, d = y.shape`, ...)
         arrs = [e.term for e in g.events if e.kind == 'call' and is_call_to(e.term, 'numpy.array') and call_arg(e.term, 0) is not None
-                and strip_views(call_arg(e.term, 0)).op == 'sub' and strip_views(call_arg(e.term, 0)).args[0].op == 'attr' and strip_views(call_arg(e.term, 0)).args[0].args[1] == 'shape']
+                and any(x.op == 'attr' and x.args[1] == 'shape' for x in walk_terms(call_arg(e.term, 0)))]
         ok = bool(arrs)
         for t in arrs:
-            a = strip_views(call_arg(t, 0))
-            base = strip_views(a.args[0].args[0])
-            ok = ok and base.op == 'param' and base.args[0] == want[0] and const_val(a.args[1]) == want[1]
+            sd = shape_dim(call_arg(t, 0))
+            ok = ok and sd is not None and sd[0].op == 'param' and sd[0].args[0] == want[0] and sd[1] == want[1]
         run.check(ok, 'R-EIN', f'{q.split("::")[1]}: unweighted estimate divides by the number of observations', fn.loc(), f'{want[0]}.shape[{want[1]}]',
                   f'the saliency-free normaliser is not {want[0]}.shape[{want[1]}] (number of observations)', construct=f'R-EIN::{q}::unweighted-normaliser')
     # cACG Tyler update: D * sum z z^H saliency / quadratic_form / mass
